@@ -479,3 +479,19 @@ func FirstCmapSubtable4(img []byte) []byte {
 	}
 	return nil
 }
+
+// SynthGPOSDevice builds a GPOS table with one SinglePos lookup (feature kern) on glyph gid
+// whose value record refers to a hinting Device table covering the sizes [start, end].
+func SynthGPOSDevice(gid, start, end, format int) []byte {
+	var l wbuf
+	l.u16(1, 0, 1, 8) // Lookup: type 1 (single adjustment), 1 subtable at 8
+	st := l.len()
+	l.u16(1, 0, 0x0044) // SinglePosFormat1: coverage offset patched, valueFormat XAdvance|XAdvDevice
+	l.u16(10, 0)        // xAdvance, device offset patched
+	l.patch16(st+2, l.len()-st)
+	l.u16(1, 1, gid) // coverage
+	l.patch16(st+8, l.len()-st)
+	l.u16(start, end, format)
+	l.u16(0x5555, 0x5555, 0x5555, 0x5555)
+	return layoutTable("kern", [][]byte{l.b})
+}
